@@ -293,6 +293,7 @@ pub fn run(ctx: &mut Ctx) {
     ctx.run_leg::<Files>(n, true, 400);
     let n = ctx.share(ctx.tier.pick(1_500, 20_000));
     ctx.run_leg::<Cli>(n, false, 200);
+    super::timeouts_inconclusive(ctx);
 }
 
 pub fn replay(leg: &str, case: &serde_json::Value) -> Option<Result<Verdict, String>> {
